@@ -169,12 +169,21 @@ def rule_SO(run: Run) -> RuleResult:
     res.add("labrea.conditional.CaseWhen._evaluate:first condition that holds selects its own result", ok_first, f, ln, d_first or "result of the same tuple at the first success", nec)
     res.add("labrea.conditional.CaseWhen._evaluate:default only when no condition held", ok_def, f, ln, d_def or "after the loop", nec)
     res.add("labrea.conditional.CaseWhen._evaluate:CaseWhenError when nothing applies", ok_err, f, ln, d_err or "raise after the loop without default", nec)
+    # every operation of CaseWhen goes through dispatch.bind(<the case selection under the same options>)
+    okb = True
+    n_b = 0
+    for op in ("evaluate", "validate", "keys", "explain"):
+        for p in run.paths(cw, op):
+            for e in p.events:
+                if e.kind in ("op", "unfold") and e.op == op and not e.via and isinstance(e.target, New) and e.target.cls.name == "Bind":
+                    n_b += 1
+                    ev_ = e.target.attrs.get("evaluatable")
+                    fn_ = e.target.attrs.get("func")
+                    if ev_ is None or ev_.key() != "Child(dispatch)" or fn_ is None or "_evaluate" not in fn_.key():
+                        okb = False
     bd = cw.methods.get("_bound")
-    okb = False
-    if bd is not None:
-        t = " ".join(ast.unparse(r.value) for r in ast.walk(bd) if isinstance(r, ast.Return) and r.value is not None)
-        okb = "self.dispatch.bind(" in t and "self._evaluate" in t
-    res.add("labrea.conditional.CaseWhen._bound:dispatch value bound into _evaluate", okb, f, bd.lineno if bd else ln, "self.dispatch.bind(partial(self._evaluate, options=options))", nec)
+    res.add("labrea.conditional.CaseWhen._bound:dispatch value bound into _evaluate", okb and n_b > 0, f, bd.lineno if bd else ln,
+            "self.dispatch.bind(partial(self._evaluate, options=options))" if okb and n_b else f"{n_b} operations forwarded to a Bind over the dispatch", nec)
 
     # ---- Coalesce._delegate
     co = repo.cls("Coalesce")
@@ -777,11 +786,13 @@ def rule_EH(run: Run) -> RuleResult:
     repo = run.repo
     nec = ("every failure must surface as an EvaluationError whose source is the object evaluate() was "
            "called on, chained (`from e`) to the original exception (C12)")
-    h = repo.func("labrea.types._evaluate_request")
+    regd = astu.default_handler_registrations(repo).get("EvaluateRequest", [])
+    if len(regd) != 1:
+        res.add("labrea.types._evaluate_request:registered as the EvaluateRequest default", False, "labrea/types.py", 0, f"default handlers of EvaluateRequest: {regd}", nec)
+        return res
+    h = repo.func(regd[0])
     f = h.module.relpath
     ln = h.node.lineno
-    if astu.default_handler_registrations(repo).get("EvaluateRequest", []) != ["labrea.types._evaluate_request"]:
-        res.add("labrea.types._evaluate_request:registered as the EvaluateRequest default", False, f, ln, "decorator @EvaluateRequest.handle missing", nec)
     ps = analyse_function(Ctx(repo), h.module, h.node)
     res.count("paths", len(ps))
     ok_call = ok_same = ok_wrap = ok_exc = ok_noret = True
@@ -862,13 +873,23 @@ def rule_EH(run: Run) -> RuleResult:
     # the error classes carry source / key
     ex = repo.cls("EvaluationError")
     init = ex.methods.get("__init__")
-    ok = init is not None and any(isinstance(n, ast.Assign) and ast.unparse(n.targets[0]) == "self.source" and ast.unparse(n.value) == "source" for n in ast.walk(init))
+    ok = init is not None
+    if ok:
+        ps_ = astu.param_names(init)
+        src_p = ps_[1] if len(ps_) > 1 else "source"
+        ips = analyse_function(Ctx(repo), ex.module, init, cls=ex)
+        ok = bool(ips) and all(p.status == "ret" and any(e.kind == "store" and len(e.args) == 2 and e.args[0].key() == "self" and e.args[1].key() == Const("source").key()
+                                                          and e.target is not None and e.target.key() == src_p for e in p.events) for p in ips)
     res.add("labrea.exceptions.EvaluationError.__init__:stores source", ok, ex.module.relpath, init.lineno if init else 0, "self.source = source", nec)
     kn = repo.cls("KeyNotFoundError")
     init = kn.methods.get("__init__")
-    ok = init is not None and any(isinstance(n, ast.Assign) and ast.unparse(n.targets[0]) == "self.key" and ast.unparse(n.value) == "key" for n in ast.walk(init)) \
-        and any(astu.short_name(c) == "__init__" and len(c.args) == 2 and ast.unparse(c.args[1]) == "source" for c in astu.calls_in(init)) \
-        and kn.is_subclass_of("EvaluationError")
+    ok = init is not None and kn.is_subclass_of("EvaluationError")
+    if ok:
+        ps_ = astu.param_names(init)
+        kps = analyse_function(Ctx(repo), kn.module, init, cls=kn)
+        ok = bool(kps) and all(p.status == "ret" and any(e.kind == "store" and len(e.args) == 2 and e.args[0].key() == "self" and e.args[1].key() == Const("key").key()
+                                                          and e.target is not None and e.target.key() == ps_[0] for e in p.events) for p in kps) \
+            and any(astu.short_name(c) == "__init__" and len(c.args) == 2 and ast.unparse(c.args[1]) == ps_[1] for c in astu.calls_in(init))
     res.add("labrea.exceptions.KeyNotFoundError.__init__:stores key, passes source on", ok, kn.module.relpath, init.lineno if init else 0, "self.key = key; super().__init__(…, source)", nec)
     return res
 
